@@ -23,6 +23,7 @@ type SpecCtx struct {
 	InOld   bool
 	What    string
 	Pre     *State // state before the call (call-site assume clauses)
+	Snap    *State // state saved by a `callsite ... snapshot` clause
 	TypeEnv map[string]types.Type // type parameters of the generic function under verification
 	FreeBind map[string]*Val // captured variables of a closure whose contract is applied at a call site
 }
@@ -69,6 +70,8 @@ func (c *SpecCtx) lookupType(name string) types.Type {
 		return types.Typ[types.String]
 	case "byte":
 		return types.Typ[types.Uint8]
+	case "any":
+		return types.NewInterfaceType(nil, nil)
 	}
 	if strings.HasPrefix(name, "*") {
 		return types.NewPointer(c.lookupType(name[1:]))
@@ -445,13 +448,13 @@ func (c *SpecCtx) index(x, i *Val) *Val {
 	st := c.state()
 	if x.Row != nil {
 		if u, ok := x.GT.Underlying().(*types.Slice); ok {
-			return &Val{T: ts.Select(x.Row, ts.Add(ts.Sel(x.T, 1), i.T)), GT: u.Elem()}
+			return &Val{T: ts.Select(x.Row, X.E.ElemIdx(ts.Sel(x.T, 1), i.T)), GT: u.Elem()}
 		}
 	}
 	switch u := x.GT.Underlying().(type) {
 	case *types.Slice:
 		n, s := X.E.ElemHeap(u.Elem())
-		return c.wellTyped(&Val{T: ts.Select(ts.Select(X.heap(st, n, s), ts.Sel(x.T, 0)), ts.Add(ts.Sel(x.T, 1), i.T)), GT: u.Elem()})
+		return c.wellTyped(&Val{T: ts.Select(ts.Select(X.heap(st, n, s), ts.Sel(x.T, 0)), X.E.ElemIdx(ts.Sel(x.T, 1), i.T)), GT: u.Elem()})
 	case *types.Basic:
 		if u.Info()&types.IsString != 0 {
 			return &Val{T: X.E.StrAt(x.T, i.T), GT: types.Typ[types.Uint8]}
@@ -613,6 +616,33 @@ func (c *SpecCtx) call(e *SExpr) *Val {
 		}
 		n := *c
 		n.InOld = true
+		return n.eval(e.Args[0])
+	case "snapat", "oldat":
+		// snapat(s, i) / oldat(s, i): element i (an expression of the CURRENT state) of slice s as it was in the
+		// snapshot / old state (slice header and elements both read there)
+		var stt *State
+		if e.Name == "snapat" {
+			stt = c.Snap
+		} else {
+			stt = c.Old
+		}
+		if stt == nil {
+			c.fail("%s() has no state to read", e.Name)
+		}
+		n := *c
+		n.St = stt
+		n.InOld = false
+		n.Old = stt
+		x := n.eval(e.Args[0])
+		i := c.eval(e.Args[1])
+		return n.index(x, i)
+	case "snap":
+		if c.Snap == nil {
+			c.fail("snap() needs a snapshot taken at an earlier call site (callsite ... snapshot)")
+		}
+		n := *c
+		n.St = c.Snap
+		n.InOld = false
 		return n.eval(e.Args[0])
 	case "pre":
 		if c.Pre == nil {
